@@ -1058,6 +1058,19 @@ def o_bandwidth(w, tr):
                                 f'a task of transfer {running[tid]} went to sleep {pl["d"]:.3f}s for the bandwidth limit at step {step}, '
                                 f'in a read that started after the transfer was recorded as failed/cancelled at step {t0}'))
                     break
+    # reads of a request body that move nothing over the wire (the checksum / signing passes botocore
+    # makes before it sends) are neither delayed nor charged
+    phase = {}
+    for e in w.sched.log:
+        step, tid, kind, pl = e[0], e[1], e[2], e[3]
+        if kind == 'body.phase':
+            phase[tid] = pl['phase']
+        elif kind in ('sleep', 'bw.charge') and phase.get(tid) == 'checksum':
+            what = (f'was charged {pl["amt"]} bytes' if kind == 'bw.charge' else f'slept {pl["d"]:.3f}s')
+            out.append(('C13:wiring:non-transfer-read-throttled',
+                        f'at step {step} thread {tid} {what} for the bandwidth limit while its request body was only being '
+                        f'read for a checksum (nothing was being transferred)'))
+            break
     moves = []
     for kind in ('body.read', 'stream.read'):
         for e in tr.ev(kind):
